@@ -25,6 +25,7 @@ import Driver.HandlerCfg
 import Driver.Frame
 import Driver.Ether
 import Driver.TxGas
+import Driver.OpFees
 /-! Line-protocol driver: one request per line on stdin, one reply per line on stdout.
 Stateless components are dispatched on the first token. A stateful component `X` adds a field
 `x : Driver.X.St := Driver.X.St.init` to `DState`, resets it on `begin x …` and threads it through
@@ -95,6 +96,8 @@ def step (st : DState) (line : String) : DState × String :=
   | "e" :: r => let (s, o) := Driver.Ether.handle st.ether r; ({ st with ether := s }, o)
   | "etx" :: r => (st, Driver.Ether.etx r)
   | "txgas" :: r => (st, TxGas.handle r)
+  | "opfee" :: r => (st, OpFees.handleOpfee r)
+  | "optx" :: r => (st, OpFees.handleOptx r)
   | _ => (st, "bad-op")
 
 partial def loop (hin hout : IO.FS.Stream) (st : DState) : IO Unit := do
